@@ -66,11 +66,52 @@ def cmp_expr(kind, got, val, tol=None):
         segs = val.asSegments() if hasattr(val, 'asSegments') else val
         if any(len(x.points) != ORDER[sk] for x in segs): return 'false'
         return f'list_eqb {sk}_feq ({got}) {vlib.clist([vlib.cseg(x) for x in segs])}'
+    if kind == 'LE': return f'list_eqb gedge_feq ({got}) {vlib.clist([cedge(x) for x in val])}'
+    if kind in ('OLP', 'OLS', 'OXLS', 'OXLP', 'XP', 'XS', 'OLE', 'OXLE'):
+        # results of the effectful definitions (Gen/Sample.v): O = option (None: out of fuel, never expected here), X = outcome
+        # (Returns v | Raises e; the Python side is a PyRaised when the call raised a modelled exception)
+        inner = {'LP': lambda g: f'list_eqb pt_feq {g} {vlib.clist([vlib.cpt(x) for x in val])}',
+                 'LS': lambda g: f'list_eqb feq {g} {vlib.clist([vlib.fhex(x) for x in val])}',
+                 'P': lambda g: f'pt_feq {g} {vlib.cpt(val)}', 'S': lambda g: f'feq {g} {vlib.fhex(val)}',
+                 'LE': lambda g: f'list_eqb gedge_feq {g} {vlib.clist([cedge(x) for x in val])}'}[kind.lstrip('OX')]
+        if isinstance(val, PyRaised):
+            if 'X' not in kind: return 'false'
+            pat = f'Some (Raises {val.exc})' if kind.startswith('O') else f'Raises {val.exc}'
+            return f'match {got} with {pat} => true | _ => false end'
+        pat = {(True, True): 'Some (Returns g_)', (True, False): 'Some g_', (False, True): 'Returns g_'}[(kind.startswith('O'), 'X' in kind)]
+        return f'match {got} with {pat} => {inner("g_")} | _ => false end'
     if kind == 'LIX':
         items = [f'({vlib.fhex(i.t1)}, {vlib.cpt(i.point)}, {vlib.fhex(i.t2)})' for i in val]
         f = 'ix_feq' if tol is None else f'(ix_fclose {vlib.fhex(tol)})'
         return f'list_eqb {f} ({got}) {vlib.clist(items)}'
     raise ValueError(kind)
+
+
+class PyRaised:
+    """the Python call raised a modelled exception (compared with `Raises <exc>` of the generated definition)"""
+    def __init__(self, exc): self.exc = exc
+    def __repr__(self): return f'raised {self.exc}'
+
+
+def catching(f, floor=False):
+    """IndexError is modelled by every kernel wrapped in this; ValueError / OverflowError only where they can only come from
+    math.floor of a NaN / an infinity (floor=True)"""
+    def g(*a):
+        try: return f(*a)
+        except IndexError: return PyRaised('PyIndexError')
+        except ValueError:
+            if not floor: raise
+            return PyRaised('PyValueError')
+        except OverflowError:
+            if not floor: raise
+            return PyRaised('PyOverflowError')
+    return g
+
+
+def cedge(l):
+    """a Line produced by flatten, with its _orig attribute"""
+    o = getattr(l, '_orig', None)
+    return f'({vlib.cseg(l)}, {"None" if o is None else "(Some " + vlib.csegment(o) + ")"})'
 
 
 def carg(kind, v):
@@ -85,6 +126,8 @@ def carg(kind, v):
     if kind == 'OBB': return 'None' if v.bl is None else f'(Some (BB {vlib.cpt(v.bl)} {vlib.cpt(v.tr)}))'
     if kind == 'OP': return 'None' if v is None else f'(Some {vlib.cpt(v)})'
     if kind == 'BB': return f'(BB {vlib.cpt(v.bl)} {vlib.cpt(v.tr)})'
+    if kind == 'PATH': return vlib.clist([vlib.csegment(x) for x in v.asSegments()])
+    if kind == 'EDGE': return cedge(v)
     raise ValueError(kind)
 
 
@@ -128,11 +171,73 @@ def g_LP2(rng):   # stroke data: mostly two or more points, sometimes with repea
 def g_LS(rng): return sorted(rng.random() for _ in range(rng.choice([0, 1, 2, 3, 5, 8])))
 def g_OBB(rng): return BoundingBox() if rng.random() < 0.25 else g_BB(rng)
 def g_OP(rng): return None if rng.random() < 0.25 else rng.choice([g_P(rng), Point(rng.uniform(-5000, 5000), rng.uniform(-5000, 5000)), Point(0.0, 0.0)])
+def g_sseg(order):
+    """segments for the sampling loops: finite, length up to a few hundred (the loops run about `length` iterations), often with
+    an integer / power-of-two length so that `t += 1/length` lands exactly on 1.0; sometimes of length 0; rarely with a NaN"""
+    def g(rng):
+        fam = rng.choice(['int', 'int', 'pow2', 'float', 'axis', 'axis', 'pyth', 'zero', 'nan'] if rng.random() < 0.35 else ['int', 'pow2', 'float', 'axis', 'pyth'])
+        if fam in ('axis', 'pyth'):
+            L = float(rng.choice([1, 2, 3, 4, 5, 7, 8, 10, 16, 32, 50, 64, 100, 128, 200, 256, rng.randint(1, 300)]))
+            x0, y0 = float(rng.randint(-50, 50)), float(rng.randint(-50, 50))
+            dx, dy = rng.choice([(1.0, 0.0), (0.0, 1.0), (-1.0, 0.0), (0.0, -1.0)]) if fam == 'axis' else rng.choice([(0.6, 0.8), (-0.8, 0.6), (3.0 / 5, -4.0 / 5)])
+            if fam == 'pyth': L = float(5 * rng.choice([1, 2, 4, 8, 16, 20, 32, 40]))
+            ts = {2: [0.0, 1.0], 3: [0.0, 0.5, 1.0], 4: [0.0, rng.choice([0.25, 1 / 3]), rng.choice([0.75, 2 / 3]), 1.0]}[order]
+            pts = [Point(x0 + dx * L * t, y0 + dy * L * t) for t in ts]
+        elif fam == 'zero':
+            p = (float(rng.randint(-50, 50)), float(rng.randint(-50, 50)))
+            pts = [Point(*p) for _ in range(order)]
+        elif fam == 'pow2':
+            pts = [Point(float(rng.randint(-16, 16) * 8), float(rng.randint(-16, 16) * 8)) for _ in range(order)]
+        elif fam == 'float':
+            pts = [Point(rng.uniform(-100, 100), rng.uniform(-100, 100)) for _ in range(order)]
+        else:
+            pts = [Point(float(rng.randint(-100, 100)), float(rng.randint(-100, 100))) for _ in range(order)]
+        if fam == 'nan':
+            q = pts[rng.randrange(order)]
+            if rng.random() < 0.5: q.x = math.nan
+            else: q.y = math.nan
+        return gen.KINDS[order](*pts)
+    return g
+def g_nsamp(rng):
+    """number of samples: positive (a negative or zero count makes the Python loops run forever / divide by zero), at most a few hundred"""
+    return rng.choice([float(rng.randint(1, 200)), float(2 ** rng.randint(0, 8)), rng.uniform(0.5, 150), rng.randint(1, 64), 10.0, 1.0, 0.75])
+def g_path(rng):
+    """a path as a list of segments of mixed classes (0 to 6 of them; not necessarily connected: the functions never look)"""
+    from beziers.path import BezierPath
+    n = rng.choice([0, 1, 1, 2, 3, 3, 4, 6])
+    return BezierPath.fromSegments([GEN['sseg%d' % rng.choice([2, 3, 4])](rng) if rng.random() < 0.7 else gen.segment(rng)[0] for _ in range(n)])
+def g_spath(rng):
+    """a path for the sampling loops: total length up to a few hundred; occasionally empty (pointAtTime raises IndexError
+    inside the loop) or with a NaN / zero-length segment"""
+    from beziers.path import BezierPath
+    n = rng.choice([0, 1, 1, 2, 2, 3, 4])
+    segs = [GEN['sseg%d' % rng.choice([2, 3, 4])](rng) for _ in range(n)]
+    if n > 1 and rng.random() < 0.5:     # connected, as real paths are
+        for a, b in zip(segs, segs[1:]):
+            d = a.end - b.start
+            b.points = [p + d for p in b.points]
+    return BezierPath.fromSegments(segs)
+def g_pt(rng):
+    """path time: mostly inside [0, 1] (segment boundaries k/n included), sometimes outside (negative ints index from the end,
+    beyond the ends is IndexError), rarely NaN / infinite (math.floor raises)"""
+    r = rng.random()
+    if r < 0.45: return gen.tvalue(rng)
+    if r < 0.65: return rng.randint(0, 6) / rng.choice([1, 2, 3, 4, 6])
+    if r < 0.85: return rng.choice([-0.25, -0.5, -1.0, -1.5, -3.0, 1.25, 2.0, rng.uniform(-2, 3), -1e-9, 1 + 1e-9])
+    return rng.choice([math.nan, math.inf, -math.inf, 1e308, -0.0])
+def g_edge(rng):
+    """a Line as Line.flatten receives it: fresh (no _orig), or cut from a curve by an earlier flatten (_orig set)"""
+    l = GEN['sseg2'](rng) if rng.random() < 0.5 else gen.segment(rng, order=2)[0]
+    if rng.random() < 0.6: l._orig = gen.segment(rng)[0]
+    return l
+def g_degree(rng): return rng.choice([8, 8.0, float(rng.randint(1, 40)), rng.uniform(0.5, 60), 1.0, 4.0, 16.0, 300.0])
 def g_size(rng): return rng.choice([float(rng.randint(1, 5000)), rng.uniform(0.5, 5000), rng.uniform(-50, 50), 0.0])
 def g_sup(rng): return rng.choice([GS.CIRCULAR_SUPERNESS, rng.uniform(0.1, 1.2), 1.0, 0.0, rng.uniform(-2, 2)])
 GEN = {'S': g_S, 't': g_t, 'angle': g_angle, 'P': g_P, 'M': g_M, 'seg2': g_seg(2), 'seg3': g_seg(3), 'seg4': g_seg(4), 'BB': g_BB, 'OS': g_OS, 'B': g_B,
-       'OP': g_OP, 'OBB': g_OBB, 'LP': g_LP, 'LP2': g_LP2, 'LS': g_LS, 'size': g_size, 'sup': g_sup}
-KIND = {'t': 'S', 'angle': 'S', 'size': 'S', 'sup': 'S', 'LP2': 'LP'}
+       'OP': g_OP, 'OBB': g_OBB, 'LP': g_LP, 'LP2': g_LP2, 'LS': g_LS, 'size': g_size, 'sup': g_sup,
+       'PATH': g_path, 'pt': g_pt, 'EDGE': g_edge, 'SPATH': g_spath,
+       'sseg2': g_sseg(2), 'sseg3': g_sseg(3), 'sseg4': g_sseg(4), 'nsamp': g_nsamp, 'degree': g_degree}
+KIND = {'t': 'S', 'angle': 'S', 'size': 'S', 'sup': 'S', 'LP2': 'LP', 'sseg2': 'seg2', 'sseg3': 'seg3', 'sseg4': 'seg4', 'nsamp': 'S', 'degree': 'S', 'pt': 'S', 'SPATH': 'PATH'}
 
 
 class K:
@@ -210,6 +315,31 @@ FIT_KERNELS = [
     K('CurveFit_chordLengthParameterize', ['LP2'], lambda pts: CF.CurveFit.chordLengthParameterize(pts), 'LS'),
 ]
 NEW_KERNELS = SHAPE_KERNELS + BOUNDS_KERNELS + SEGMENT_KERNELS + FIT_KERNELS
+# utils/samplemixin.py (Gen/Sample.v): the definitions with `while` loops take the fuel first (FUEL iterations per loop
+# invocation; the generators keep every loop far below it, and an `option` result None -- out of fuel -- never agrees)
+FUEL = 5000
+def fuelled(name): return lambda ops, cargs: f'{name} {ops} {FUEL} {cargs}'
+def sample_kernels(kd):
+    c = CLS[kd]
+    return [K(f'{c}_sample', ['s' + kd, 'nsamp'], lambda s, n: s.sample(n), 'OLP', term=fuelled(f'{c}_sample')),
+            K(f'{c}_regularSampleTValue', ['s' + kd, 'nsamp'], catching(lambda s, n: s.regularSampleTValue(n)), 'OXLS', term=fuelled(f'{c}_regularSampleTValue')),
+            K(f'{c}_regularSample', ['s' + kd, 'nsamp'], catching(lambda s, n: s.regularSample(n)), 'OXLP', term=fuelled(f'{c}_regularSample'))]
+SAMPLE_KERNELS = sample_kernels('seg2') + sample_kernels('seg3') + sample_kernels('seg4')
+# path/__init__.py BezierPath.length / pointAtTime / lengthAtTime over `list (segment T)`
+PATH_KERNELS = [
+    K('Path_length', ['PATH'], lambda p: p.length, 'S'),
+    K('Path_pointAtTime', ['PATH', 'pt'], catching(lambda p, t: p.pointAtTime(t), floor=True), 'XP'),
+    K('Path_lengthAtTime', ['PATH', 'pt'], catching(lambda p, t: p.lengthAtTime(t), floor=True), 'XS'),
+    # SampleMixin on a path: pointAtTime / lengthAtTime can raise inside the loops
+    K('Path_sample', ['SPATH', 'nsamp'], catching(lambda p, n: p.sample(n), floor=True), 'OXLP', term=fuelled('Path_sample')),
+    K('Path_regularSampleTValue', ['SPATH', 'nsamp'], catching(lambda p, n: p.regularSampleTValue(n), floor=True), 'OXLS', term=fuelled('Path_regularSampleTValue')),
+    K('Path_regularSample', ['SPATH', 'nsamp'], catching(lambda p, n: p.regularSample(n), floor=True), 'OXLP', term=fuelled('Path_regularSample')),
+    # the flatteners: lists of Lines compared WITH their _orig attribute (gedge_feq of PREAMBLE)
+    K('Line_flatten', ['EDGE', 'degree'], lambda l, d: l.flatten(d), 'LE'),
+    K('Quad_flatten', ['sseg3', 'degree'], lambda s, d: s.flatten(d), 'OLE', term=fuelled('Quad_flatten')),
+    K('Cubic_flatten', ['sseg4', 'degree'], catching(lambda s, d: s.flatten(d)), 'OXLE', term=fuelled('Cubic_flatten')),
+]
+NEW_KERNELS2 = SAMPLE_KERNELS + PATH_KERNELS
 
 KERNELS = {k.name: k for k in (
     [K('Point___add__', ['P', 'P'], lambda a, b: a + b, 'P'), K('Point___sub__', ['P', 'P'], lambda a, b: a - b, 'P'),
@@ -247,9 +377,15 @@ KERNELS = {k.name: k for k in (
      K('Quad_toCubicBezier', ['seg3'], lambda s: s.toCubicBezier(), 'seg4'),
      K('Cubic_findExtremes_False', ['seg4'], lambda s: s.findExtremes(), 'LS'),
      K('Cubic_hasLoop', ['seg4'], lambda s: s.hasLoop, 'OSS'),
-     ] + seg_kernels('seg2') + seg_kernels('seg3') + seg_kernels('seg4') + NEW_KERNELS)}
+     ] + seg_kernels('seg2') + seg_kernels('seg3') + seg_kernels('seg4') + NEW_KERNELS + NEW_KERNELS2)}
 
-IMPORTS = ['Gen.Utils', 'Gen.Point', 'Gen.Affine', 'Gen.BBox', 'Gen.Line', 'Gen.Quad', 'Gen.Cubic', 'Gen.CurveDist', 'Gen.Shapes', 'Gen.Fit']
+# comparison of flattened edges: the line and its _orig (None, or the curve it was cut from, class included)
+PREAMBLE = '''Definition gsegment_feq (a b : segment float) : bool :=
+  match a, b with SLine x, SLine y => seg2_feq x y | SQuad x, SQuad y => seg3_feq x y | SCubic x, SCubic y => seg4_feq x y | _, _ => false end.
+Definition gedge_feq (a b : seg2 float * option (segment float)) : bool :=
+  seg2_feq (fst a) (fst b) && match snd a, snd b with None, None => true | Some x, Some y => gsegment_feq x y | _, _ => false end.
+'''
+IMPORTS = ['Gen.Utils', 'Gen.Point', 'Gen.Affine', 'Gen.BBox', 'Gen.Line', 'Gen.Quad', 'Gen.Cubic', 'Gen.CurveDist', 'Gen.Shapes', 'Gen.Fit', 'Gen.Sample']
 
 
 def clone_arg(kind, v):
@@ -258,6 +394,13 @@ def clone_arg(kind, v):
     if kind in ('P', 'OP') and v is not None: return v.clone()
     if kind == 'LP': return [x.clone() for x in v]
     if kind == 'LS': return list(v)
+    if kind == 'PATH':
+        from beziers.path import BezierPath
+        return BezierPath.fromSegments([x.clone() for x in v.asSegments()])
+    if kind == 'EDGE':
+        l = v.clone()
+        if hasattr(v, '_orig'): l._orig = v._orig
+        return l
     if kind in ('BB', 'OBB'):
         b = BoundingBox()
         if v.bl is not None: b.bl, b.tr = v.bl.clone(), v.tr.clone()
@@ -331,7 +474,12 @@ def cross_check(pid, names, n_per, rng, tag='kern'):
             meta.append({'kernel': nm, 'args': [repr(a) if not hasattr(a, 'matrix') else a.matrix for a in args], 'python': repr(val)[:200]})
             made += 1
         dist[nm] = {'cases': made, 'python_raised': raised}
-    res = vlib.run_case_files(pid, tag, IMPORTS, '', cases)
+    res = vlib.run_case_files(pid, tag, IMPORTS, PREAMBLE, cases)
+    res['python_outcomes'] = {}
+    for m in meta:
+        o = m['python'] if m['python'].startswith('raised ') else 'returned'
+        res['python_outcomes'].setdefault(m['kernel'], {}).setdefault(o, 0)
+        res['python_outcomes'][m['kernel']][o] += 1
     res['distribution'] = dist
     res['kinds'] = {'kernels': len(names)}
     res['samples'] = meta[:2]
